@@ -223,6 +223,5 @@ package db
 //@ func (*DB).initialize -> (err)
 //@   assert before call#1 Commit: res(Has, 1, 0) && res(loadSchema, 1, 0) == nil && res(ReloadLenses, 1, 0) == nil
 //@   assert before call#2 Commit: !res(Has, 1, 0) && res(Set, 1, 0) == nil
-//@   assert before call#1 Has: sameslice(arg2, callarg(Set, 1, 2)) || true
 //@   tags C14 C05
 //@ apply TxnAPI: (*DB).initialize
